@@ -1,5 +1,5 @@
 (* C08 property theorems only. *)
-From V Require Import lib.Verdict C08.Model C08.Proofs C08.Proofs2 C08.Proofs3 C08.Proofs4 C08.Proofs5.
+From V Require Import lib.Verdict C08.Model C08.Proofs C08.Proofs2 C08.Proofs3 C08.Proofs4 C08.Proofs5 C08.Proofs6.
 
 (* HEADLINE (partial: relative to the single-value matchers).  For every option set (HTTP or TCP
    chain, authenticated / filter-state principals, trust domains), every list of policies (any
@@ -29,6 +29,22 @@ Theorem C08_decision_preserved_weaker_premise_partial : forall o ps r,
   eval_filters (compile_filters o ps) r = decision_view (tcp o) ps r.
 Proof. exact compile_preserves_decision_rest. Qed.
 Print Assumptions C08_decision_preserved_weaker_premise_partial.
+
+(* ... and with source.principal discharged as well (spiffe:// prefix; the suffix form's regex
+   spiffe://.*<suffix> is given its full-match meaning by derivatives and proved equal to
+   "ends with"): remaining premises are uri_template paths, namespaces (refuted),
+   serviceAccounts and the JWT matchers. *)
+Theorem C08_decision_preserved_weakest_premise_partial : forall o ps r,
+  leaves_rest2 (tcp o) (negb (use_filter_state o)) r ->
+  alias_free_policies (trust_domains o) ps ->
+  eval_filters (compile_filters o ps) r = decision_view (tcp o) ps r.
+Proof. exact compile_preserves_decision_rest2. Qed.
+Print Assumptions C08_decision_preserved_weakest_premise_partial.
+
+Theorem C08_leaf_source_principal : forall key v tcp ua r p,
+  gen_prin KSrcPrincipal key v tcp ua = Ok p -> eval_prin p r = value_sem KSrcPrincipal key v r.
+Proof. exact leaf_principal. Qed.
+Print Assumptions C08_leaf_source_principal.
 
 Theorem C08_leaves_discharged : forall tcp ua r, leaves_rest tcp ua r -> leaves_ok tcp ua r.
 Proof. exact leaves_rest_ok. Qed.
